@@ -28,15 +28,15 @@ const verif18MaxNs = int64(1) << 40
 
 type verif18Loop struct{}
 
-func (verif18Loop) send(event) bool                          { return true }
-func (verif18Loop) sendTimeout(event, time.Duration) error   { return nil }
-func (verif18Loop) run(*state)                               {}
-func (verif18Loop) stop()                                    {}
+func (verif18Loop) send(event) bool                        { return true }
+func (verif18Loop) sendTimeout(event, time.Duration) error { return nil }
+func (verif18Loop) run(*state)                             {}
+func (verif18Loop) stop()                                  {}
 
 type verif18NoNet struct{}
 
 func (verif18NoNet) Produce(*networkevent.Event) {}
-func (verif18NoNet) Close() error               { return nil }
+func (verif18NoNet) Close() error                { return nil }
 
 type verif18Archive struct {
 	t       *dispatch.Verif18Torrent
